@@ -55,7 +55,7 @@ def keep(src, name, pid, tier='quick'):
         r1 = sh(['/venv/bin/python', src + '/demo.py'], env=env, timeout=900)
         out['demo_exit_changed'] = r1.returncode
         out['demo_output_changed_tail'] = (r1.stdout + r1.stderr)[-400:]
-        b = sh(['python3', '/tmp/mut/baseline_check.py', wt], timeout=1200)
+        b = sh(['python3', VERIF + '/tools/baseline_check.py', wt], timeout=1200)
         out['baseline'] = b.stdout.strip().split('\n')[0][:200]
         # store the patch as it applies to /repo HEAD
         diff = sh(['git', '-C', wt, 'diff']).stdout
